@@ -54,7 +54,7 @@ func init() {
 		Bounds:      map[string]string{"quick": "one prefix; v6/IPv4-mapped lengths {0,1,7,8,9,31,32,33,64,95,96,97,104,127,128}, v4 lengths {0,1,8,9,24,31,32}; all address and probe bits symbolic", "thorough": "one prefix, every length 0..128 (v6) and 0..32 (v4); all address and probe bits symbolic"},
 		Outside:     []string{"kernel LPM trie implementation (contract only)", "geodata-scale sets"},
 		Assumptions: []string{"sync.Pool hands out a warm buffer (capacity 512)", "kernel LPM lookup = longest-prefix rule over key bytes"},
-		QuickBudget: 8 * time.Minute, ThoroughBudget: 40 * time.Minute,
+		QuickBudget: 8 * time.Minute, ThoroughBudget: 20 * time.Minute,
 	}
 	checks["C18"] = &CheckDef{
 		Pkgs:        []string{"./control"},
@@ -68,7 +68,7 @@ func init() {
 		Bounds:      map[string]string{"quick": "full decision table (4 modes x 7 outbounds x 4 names x 8 knowledge states x 3 ports); sniffed strings of <=4 symbolic bytes over a 6-letter alphabet, 3 name-using modes", "thorough": "same table; strings of <=6 symbolic bytes"},
 		Outside:     []string{"strings longer than the bound or using other characters", "the re-route itself (Route is C01)"},
 		Assumptions: []string{"HasDnsKnowledge / real-domain cache answers are arbitrary booleans", "logger is a no-op"},
-		QuickBudget: 8 * time.Minute, ThoroughBudget: 40 * time.Minute,
+		QuickBudget: 8 * time.Minute, ThoroughBudget: 20 * time.Minute,
 	}
 	checks["C14"] = &CheckDef{
 		Pkgs:        []string{"./component/outbound"},
@@ -82,7 +82,7 @@ func init() {
 		Bounds:      map[string]string{"quick": "2 nodes; shapes: no filter | 1 line x 1 condition x <=2 values | 2 lines x 1 condition x 1 value | 1 line x 2 conditions x 1 value; inputs name/subtag, keys exact/keyword/regex, negation symbolic, 1 regex pattern; invalid-element harness: 6 kinds at fixed positions; policy: 7 names x params shapes", "thorough": "3 nodes; adds 2 lines x <=2 values, 2 lines x 2 conditions x <=2 values, 2 regex patterns"},
 		Outside:     []string{"regexp2's own matching", "names longer than 2 bytes / other characters (matching is by equality and substring on symbolic bytes)", "NewDialerSetFromLinks (node link parsing)"},
 		Assumptions: []string{"regexp2.Compile/MatchString by contract", "Dialer.Property() returns the harness's property object"},
-		QuickBudget: 8 * time.Minute, ThoroughBudget: 40 * time.Minute,
+		QuickBudget: 8 * time.Minute, ThoroughBudget: 20 * time.Minute,
 	}
 	checks["C08"] = &CheckDef{
 		Pkgs:        []string{"./control"},
@@ -96,7 +96,7 @@ func init() {
 		Bounds:      map[string]string{"quick": "lookup: 1 entry, 1 insert + <=2 lookups at arbitrary instants, ttl 0..31536000, stale window 0..3600 s, fixed ttl 0..86400; janitor: 2 entries, 1 pass; LRU: 4 entries with arbitrary distinct access times, limit 1..3; reload: 1 clone", "thorough": "same with LRU over 6 entries"},
 		Outside:     []string{"DNS wire packing (miekg/dns)", "concurrent lookups (refresh flag is a CAS; sequential here)", "async BPF update worker"},
 		Assumptions: []string{"time.Time abstraction: Unix nanoseconds, no zones", "Msg.Pack replaced by TTL-carrying blob", "clock non-decreasing, < 2^61 ns"},
-		QuickBudget: 8 * time.Minute, ThoroughBudget: 40 * time.Minute,
+		QuickBudget: 8 * time.Minute, ThoroughBudget: 20 * time.Minute,
 	}
 	checks["C15"] = &CheckDef{
 		Pkgs:        []string{"./component/outbound"},
@@ -153,7 +153,7 @@ func init() {
 		Bounds:  map[string]string{"quick": "one rule + fallback: each of the 10 condition kinds, 1-2 values (domain: 1-2 key groups), negation symbolic, 4 outbound forms incl. must_rules; two rules + fallback: port && {ip | domain | mac} (1-2 values) then sport, first rule must_rules or a marked group; prefix forms v4/24, v6/64, v4/0; packet fully symbolic (both address forms for the destination, with and without a domain)", "thorough": "all 10 kinds in every position of the two-rule shape, 7 outbound forms, prefix forms /0 /24 /32 /64 /128"},
 		Outside: []string{"more than two rules / two conditions per rule (the per-match-set loop state is the same for any length)", "string parsers of values", "config.patchMustOutbound"},
 		Assumptions: []string{"K-LPM (C12)", "K-DOM (C11): domain-set hits are free booleans", "logger is a no-op"},
-		QuickBudget: 8 * time.Minute, ThoroughBudget: 90 * time.Minute,
+		QuickBudget: 8 * time.Minute, ThoroughBudget: 25 * time.Minute,
 	}
 	checks["C07"] = &CheckDef{
 		Pkgs:    []string{"./component/dns", "./control"},
